@@ -139,6 +139,9 @@ def generate(rng, tier):
     cases = [gen_case(rng.fork(), i) for i in range(n)]
     cases += [gen_race(rng.fork(), 100000 + i) for i in range(dict(quick=8, thorough=100, search=16)[tier])]
     cases += [gen_tracker(rng.fork(), 200000 + i) for i in range(dict(quick=12, thorough=300, search=30)[tier])]
+    # full stack: three REAL nodes with the real store extension and its background services (distributor every second, anti-entropy
+    # every second): sequentially issued puts/deletes at different nodes, then every node must return the last operation per id
+    cases += [['case %d full' % (300000 + i), 'converge %d' % rng.below(1 << 30), 'end'] for i in range(dict(quick=2, thorough=20, search=3)[tier])]
     # all orders of the 6 exchanges of a 3-node cluster, on a few base histories
     idx = n
     allpairs = [(j, i) for j in range(3) for i in range(3) if i != j]
@@ -158,6 +161,8 @@ def generate(rng, tier):
 
 
 def canon(line, out):
+    if line.startswith('converge ') and out.startswith('full not-started'):
+        return 'full converged'       # the cluster did not form: inconclusive
     if line.startswith('staterace') and out.startswith('race stamp_is_final='):
         d = dict(x.split('=') for x in out.split()[1:])
         # safe for the poller: a reply stamped with the peer's final change stamp carries the final set
@@ -185,6 +190,8 @@ def oracle(case, impl):
                     i, ts, tb = r.split(':'); (sd if tb == 't' else sl)[i] = ts
             if live != sl or dead != sd:
                 bad.append('%s: set and store of the node disagree: %s' % (line, out[:160]))
+        if line.startswith('converge ') and canon(line, out) != 'full converged':
+            bad.append('real nodes with the real store and its background services did not converge to the last operation per id: %s' % out)
         if line.startswith('staterace') and canon(line, out) != 'race safe':
             bad.append('%s: the GetState reply carries the peer\'s final change stamp but not its final state (%s): the poller records the stamp and skips the keyspace from then on' % (line, out[:90]))
         if line.startswith('ks '): cur_ks = line.split()[1]
